@@ -2086,9 +2086,11 @@ static void buildOrthogonalNudgingSegments(Router *router,
             }
             else if (junction)
             {
-                // Don't nudge segments attached to junctions,
-                // so just use the junction position here.
-                Point pos = junction->position();
+                // Don't nudge segments attached to junctions, so just use
+                // the junction position here.  That is the position the
+                // routes run to: the hyperedge improvement may just have
+                // moved it away from the junction's current position.
+                Point pos = junction->recommendedPosition();
                 shapeLimits[i] = std::make_pair(pos, pos);
             }
             ++obstacleIt;
